@@ -405,6 +405,44 @@ func init() {
 					}
 					return false
 				}
+				// lenTerm: e is len(stack)+off — the length itself, `len(stack) - 1`, or a local
+				// defined once as either (`last := len(r.conditionStack) - 1`)
+				var lenTerm func(e ast.Expr, depth int) (int, bool)
+				lenTerm = func(e ast.Expr, depth int) (int, bool) {
+					e = ast.Unparen(e)
+					if isLenStack(e) {
+						return 0, true
+					}
+					if be, ok := e.(*ast.BinaryExpr); ok && (be.Op == token.SUB || be.Op == token.ADD) {
+						if off, ok := lenTerm(be.X, depth+1); ok {
+							if k, okc := intConst(info, be.Y); okc {
+								if be.Op == token.SUB {
+									return off - k, true
+								}
+								return off + k, true
+							}
+						}
+					}
+					if o := identObj(info, e); o != nil && depth < 3 {
+						var def ast.Expr
+						n := 0
+						ast.Inspect(fd.Body, func(m ast.Node) bool {
+							if as, ok := m.(*ast.AssignStmt); ok && len(as.Lhs) == len(as.Rhs) {
+								for i, l := range as.Lhs {
+									if identObj(info, l) == o {
+										n++
+										def = as.Rhs[i]
+									}
+								}
+							}
+							return true
+						})
+						if n == 1 && def != nil {
+							return lenTerm(def, depth+1)
+						}
+					}
+					return 0, false
+				}
 				empty := fc.edgesImplying(func(a LitAtom) bool {
 					be, ok := ast.Unparen(a.E).(*ast.BinaryExpr)
 					if !ok {
@@ -413,10 +451,12 @@ func init() {
 					var k int
 					var okc bool
 					op := be.Op
-					if isLenStack(be.X) {
+					if off, isT := lenTerm(be.X, 0); isT {
 						k, okc = intConst(info, be.Y)
-					} else if isLenStack(be.Y) {
+						k -= off // len + off OP k  ==  len OP k - off
+					} else if off, isT := lenTerm(be.Y, 0); isT {
 						k, okc = intConst(info, be.X)
+						k -= off
 						switch op {
 						case token.LSS:
 							op = token.GTR
